@@ -10,6 +10,8 @@ import UVerif.Driver.DD
 import UVerif.Driver.Fast
 import UVerif.Driver.Sqrt
 
+import UVerif.Driver.Cfloat
+
 namespace UVerif.Driver
 
 /-- family name ↦ handler. One line per family. -/
@@ -32,6 +34,7 @@ def lookupHandler (fam : String) : Option Handler :=
   | "ddconv" => some ddconvHandler
   | "fast" => some fastHandler
   | "sqrt" => some sqrtHandler
+  | "cfloat" => some cfloatHandler
   | _ => none
 
 end UVerif.Driver
